@@ -310,3 +310,10 @@ func sortedKeys(m map[string][]byte) []string {
 }
 
 var _ = time.Now
+
+// Exported for other engines.
+var Parser chain.Parser = simParser{}
+
+func Sponsors() []*auth.ED25519Factory { return sponsors() }
+
+func SimKey(name byte, chunks uint16) []byte { return simKey(name, chunks) }
